@@ -538,7 +538,10 @@ func (r *renderer) expr(e *Expr, ctx int) {
 	case Ref:
 		w.WriteString(e.Name)
 	case Empty:
-		// nothing: only legal as the last alternative or as a whole body
+		// nothing as the last alternative or as a whole body; an empty group elsewhere
+		if ctx >= 2 {
+			w.WriteString("()")
+		}
 	case Seq:
 		paren(1, func() {
 			for i, k := range e.Kids {
